@@ -1,7 +1,156 @@
-//! C18: not implemented yet.
-use crate::util::Args;
+//! C18: the btor2 reader rejects bad input cleanly and only accepts well-typed systems.
+//! One case per line:
+//!   (case ID (profile debug|release) (origin "..") (muts "..") (text "...") (impl R))
+//!   R = (ok (nodes N..) (sys ..)) | (err) | (panic "file:line" "message")
+//! The expression graph is dumped with sharing (children are indices into `nodes`).
+use crate::c08::btorgen::*;
+use crate::dump::quote;
+use crate::rng::Rng;
+use crate::sexp::read_cases;
+use crate::util::*;
+use std::io::Write;
 
-pub fn run(_args: &Args) {
-    eprintln!("C18: harness module not implemented yet");
-    std::process::exit(2);
+pub fn impl_field(text: &str, stats: &mut Stats) -> String {
+    match run_parse(text) {
+        ImplRes::Ok(ctx, sys) => {
+            let d = dump_sys_dag(&ctx, &sys);
+            stats.bump("impl_class", "ok");
+            stats.bump("ok_nodes", &bucket(d.n_nodes as u64));
+            format!("(ok {})", d.text)
+        }
+        ImplRes::Err => {
+            stats.bump("impl_class", "err");
+            "(err)".to_string()
+        }
+        ImplRes::Panic(loc, msg) => {
+            stats.bump("impl_class", "panic");
+            stats.bump("panic_loc", &loc);
+            format!("(panic {} {})", quote(&loc), quote(&msg))
+        }
+    }
+}
+
+pub fn bucket(n: u64) -> String {
+    match n {
+        0 => "0".into(),
+        1..=9 => "1-9".into(),
+        10..=99 => "10-99".into(),
+        100..=999 => "100-999".into(),
+        1000..=9999 => "1000-9999".into(),
+        _ => ">=10000".into(),
+    }
+}
+
+pub fn run(args: &Args) {
+    silence_stderr();
+    if std::env::var("VERIF_KEEP_STDERR").is_ok() {
+        // debugging aid: show panics of the harness itself
+        std::panic::set_hook(Box::new(|info| eprintln!("HARNESS-PANIC {info}")));
+    }
+    let mut rng = Rng::new(args.seed);
+    let mut out = std::io::BufWriter::new(std::fs::File::create(&args.out).expect("out file"));
+    let mut stats = Stats::default();
+    let mut distinct = std::collections::HashSet::new();
+    let prof = profile_name();
+    if let Some(path) = args.get("cases-in") {
+        for c in read_cases(path).iter() {
+            let id = c.list()[1].atom().to_string();
+            let text = c.field("text").expect("text")[0].atom().to_string();
+            let origin = c.field("origin").map(|f| f[0].atom().to_string()).unwrap_or_default();
+            let muts = c.field("muts").map(|f| f[0].atom().to_string()).unwrap_or_default();
+            let r = impl_field(&text, &mut stats);
+            distinct.insert(text.clone());
+            let line = format!("(case {id} (profile {prof}) (origin {}) (muts {}) (text {}) (impl {r}))", quote(&origin), quote(&muts), quote(&text));
+            stats.sample(&line, 2);
+            writeln!(out, "{line}").unwrap();
+        }
+    }
+    let files = shipped_files();
+    let max_lines = args.get_u64("max-file-lines", 400) as usize;
+    let small: Vec<&(String, String)> = files.iter().filter(|(_, t)| t.lines().count() <= max_lines).collect();
+    // `--files all`: every shipped file, unmutated
+    if args.get("files") == Some("all") {
+        for (k, (name, text)) in files.iter().enumerate() {
+            let r = impl_field(text, &mut stats);
+            distinct.insert(text.clone());
+            stats.bump("origin", "file-unmutated");
+            let line = format!("(case f{k} (profile {prof}) (origin {}) (muts \"\") (text {}) (impl {r}))", quote(name), quote(text));
+            writeln!(out, "{line}").unwrap();
+        }
+    }
+    for id in 0..args.count {
+        let mut r = rng.fork();
+        let kind = r.below(100);
+        let (mut lines, origin): (Vec<String>, String) = if kind < 45 && !small.is_empty() {
+            let (name, text) = *r.pick(&small);
+            (text.lines().map(|l| l.to_string()).collect(), format!("file:{name}"))
+        } else if kind < 80 {
+            let mut g = BtorGen::new(&mut r, BtorGenCfg::default());
+            g.gen_file();
+            for o in g.ops_used.iter() {
+                stats.bump("gen_ops", o);
+            }
+            (g.lines.clone(), "generated".to_string())
+        } else {
+            let (l, name) = edge_template(&mut r);
+            (l, format!("edge:{name}"))
+        };
+        let okind = origin.split(':').next().unwrap().to_string();
+        if origin.starts_with("edge:") {
+            stats.bump("edge_template", &origin[5..]);
+        }
+        // number of mutations: edge templates mostly unmutated, others 1..3 (generated: sometimes 0)
+        let n_mut = match okind.as_str() {
+            "edge" => {
+                if r.chance(1, 4) {
+                    1
+                } else {
+                    0
+                }
+            }
+            "generated" => {
+                if r.chance(1, 5) {
+                    0
+                } else {
+                    r.range(1, 3)
+                }
+            }
+            _ => r.range(1, 3),
+        };
+        let mut muts: Vec<&'static str> = vec![];
+        for _ in 0..n_mut {
+            let m = mutate_once(&mut r, &mut lines);
+            muts.push(m);
+            stats.bump("mutation", m);
+        }
+        if clamp_huge_sorts(&mut lines) {
+            stats.inc("huge_sort_clamped");
+        }
+        stats.bump("origin", &okind);
+        stats.bump("n_mutations", &format!("{}", muts.len()));
+        let mut text = lines.join("\n");
+        if r.chance(9, 10) {
+            text.push('\n');
+        }
+        stats.bump("text_lines", &bucket(lines.len() as u64));
+        if !text.is_ascii() {
+            stats.inc("non_ascii_texts");
+        }
+        let t0 = std::time::Instant::now();
+        let res = impl_field(&text, &mut stats);
+        let ms = t0.elapsed().as_millis();
+        if ms > 250 {
+            stats.bump("slow_cases_over_250ms", &format!("{origin} [{}]", muts.join(",")));
+            if stats.notes.len() < 5 {
+                stats.notes.push(format!("slow case {id}: {ms} ms, origin {origin}, mutations {}", muts.join(",")));
+            }
+        }
+        distinct.insert(text.clone());
+        let line = format!("(case {id} (profile {prof}) (origin {}) (muts {}) (text {}) (impl {res}))", quote(&origin), quote(&muts.join(",")), quote(&text));
+        stats.sample(&line, 2);
+        writeln!(out, "{line}").unwrap();
+    }
+    stats.add("distinct_cases", distinct.len() as u64);
+    stats.bump("profile", prof);
+    stats.write(&args.out);
 }
